@@ -71,3 +71,18 @@ Definition check_script (c : dcase) : bool :=
   end.
 
 Definition check_dcase (c : dcase) : bool := check_match c && check_script c.
+
+(* Model-level evaluation of C01/C05/C17 (identity level) on the implementation's script *)
+Require Import XV.Spec.
+Definition tree_of (f : forest) (root : id) : tree := to_tree (S (fnext f)) f root.
+Definition check_spec (c : dcase) : bool :=
+  match dscript c with
+  | None => true
+  | Some script =>
+      match run_checked 0 (dL c) script with
+      | Some T => let g := node_attribs float (dopts c) in
+                  tree_equivb (tree_map_attrs g (tree_of T 0)) (tree_map_attrs g (tree_of (dR c) 0))
+      | None => false
+      end
+  end.
+Definition check_all (c : dcase) : bool := check_dcase c && check_spec c.
